@@ -1,5 +1,6 @@
 """C08 - pickle tags = feature, rule, scenario, examples tags, in that order."""
 from . import compiler_rules as cr
+from . import misc_rules as ms
 from . import builder_rules as br
 
 META = {
@@ -17,3 +18,5 @@ def run(rep):
     cr.rule_tags(rep)
     br.rule_tags_ast(rep, "C08.ast")
     cr.rule_input(rep, "C08.isolation")
+    # no hidden state: what the property promises for one use must hold for every later use as well
+    ms.rule_stateless(rep, "C08")
